@@ -1,3 +1,4 @@
+import Firebolt.Properties.TransBase
 import Firebolt.Model.EsSink
 import Firebolt.Generated.Skeleton
 import Firebolt.Expected.Skeleton
@@ -396,6 +397,39 @@ theorem skeleton_invokeProcessorAsync : Generated.invokeProcessorAsync = Expecte
 
 /-! ### influence closure: the pinned functions, and every function of the repository that writes a struct field or package
 variable they read, are unchanged (digests regenerated from /repo on every run; a difference names the functions) -/
+/-! ### The code itself, translated (`Generated/Trans.lean`, rewritten from /repo on every run by extractor/translate.go)
+
+The `translated_*` theorems are about MiniGo terms the translator produced from the current Go source: for every
+environment the translated fragment does what the hand-written model function says.  They are semantic obligations —
+a rewrite that preserves the behaviour keeps them provable, a changed comparison, bound or argument does not. -/
+section Translated
+open Firebolt.MiniGo Firebolt.TransBase
+
+/-- the per-item body of handleErrorResponses: answered with success, answered with ES_INDEX_ERROR, carried to the next
+attempt, or (a non-2xx item without an error object) neither — by status, error type and retry count -/
+theorem translated_esItemBody (σ : Env) (hidx : σ "action" = σ "\"index\"") :
+    (run Trans.esItemBody σ).stuck = false ∧
+    (run Trans.esItemBody σ).calls =
+      match esOutcome σ with
+      | some .ok => [("req.Event.ReturnEvent", [σ "req.Event"])]
+      | none => []
+      | some .mapping => esErrCalls σ
+      | some .retryable => ("append retryRequests", [σ "requests[bulkIndexPos]"]) ::
+                           (if σ "retryCount" = σ "c.maxRetries" then esErrCalls σ else []) := by
+  by_cases h1 : 200 ≤ σ "i.Status" <;> by_cases h2 : σ "i.Status" ≤ 299 <;> by_cases h3 : σ "i.Error" = 0 <;>
+  by_cases h4 : σ "i.Error.Type" = σ "\"mapper_parsing_exception\"" <;> by_cases h5 : σ "retryCount" = σ "c.maxRetries" <;>
+  minigo_simp [Trans.esItemBody, esOutcome, esErrCalls, hidx, h1, h2, h3, h4, h5]
+
+/-- the model's `handle` on a single item, in the same terms: answered now / carried to the next attempt -/
+theorem model_handle_single (retry max : Nat) (d : Doc) (o : Outcome) :
+    handle retry max [(d, o)] =
+      match o with
+      | .ok => ([(d, .success)], [])
+      | .mapping => ([(d, .indexError)], [])
+      | .retryable => if retry = max then ([(d, .indexError)], []) else ([], [d]) := by
+  cases o <;> simp [handle]
+end Translated
+
 theorem closure_unchanged : GeneratedClo.C14 = ExpectedClo.C14 := by rfl
 
 end Firebolt.C14
